@@ -20,3 +20,19 @@ func TestFuzzWrapper(t *testing.T) {
 		})
 	}
 }
+
+// TestCheckWrapper binds the exported Check / MakeCheck entry points to a real *testing.T: a failed Check
+// must fail the enclosing (sub-)test and stop it (nothing after the call runs); a passing one must not.
+func TestCheckWrapper(t *testing.T) {
+	for _, c := range harness.CheckWrapCases() {
+		c := c
+		t.Run(c.Name, func(st *testing.T) {
+			if c.Make {
+				rapid.MakeCheck(c.Prop)(st)
+			} else {
+				rapid.Check(st, c.Prop)
+			}
+			st.Logf("AFTER-CHECK %s", c.Name)
+		})
+	}
+}
